@@ -49,21 +49,161 @@ def solvers_used():
     return list(_state["log"])
 
 
-class Watchdog(Exception):
-    pass
+class Watchdog(BaseException):
+    """not an Exception: library code catching `Exception` must not swallow it"""
 
 
 def _alarm(signum, frame):
     raise Watchdog()
 
 
+def run_forked(seconds, f, *a):
+    """Run f(*a) in a forked child with a HARD time limit; the (picklable) result comes back through a pipe.
+    A library call that never returns cannot be interrupted reliably from inside the interpreter (solver wrappers
+    swallow exceptions), so non-termination is observed by killing the child."""
+    import os
+    import pickle
+    import select
+    import time
+    r, w = os.pipe()
+    pid = os.fork()
+    if pid == 0:
+        try:
+            os.close(r)
+            try:
+                res = ("ok", f(*a))
+            except BaseException as e:   # noqa
+                res = ("err", type(e).__name__, str(e))
+            try:
+                data = pickle.dumps(res)
+            except Exception as e:
+                data = pickle.dumps(("err", "PicklingError", repr(e)))
+            pos = 0
+            while pos < len(data):
+                pos += os.write(w, data[pos:pos + 65536])
+        finally:
+            os._exit(0)
+    os.close(w)
+    chunks = []
+    deadline = time.time() + seconds
+    timed_out = False
+    while True:
+        left = deadline - time.time()
+        if left <= 0:
+            timed_out = True
+            break
+        rd, _, _ = select.select([r], [], [], min(left, 1.0))
+        if rd:
+            b = os.read(r, 1 << 20)
+            if not b:
+                break
+            chunks.append(b)
+    os.close(r)
+    if timed_out:
+        try:
+            os.kill(pid, 9)
+        except OSError:
+            pass
+    os.waitpid(pid, 0)
+    if timed_out:
+        raise Watchdog()
+    res = pickle.loads(b"".join(chunks)) if chunks else ("err", "ChildDied", "no result")
+    if res[0] == "ok":
+        return res[1]
+    raise ForkedError(res[1], res[2])
+
+
+def map_forked(fn, items, seconds):
+    """Apply fn to every item inside forked children with a HARD per-item time limit.  One child handles as many items as it
+    can (results are streamed back one by one); when an item exceeds the limit the child is killed, that item is reported as
+    ("timeout",) and a new child continues with the rest.  Returns a list of ("ok", value) | ("err", name, msg) | ("timeout",)."""
+    import os
+    import pickle
+    import select
+    import struct
+    import time
+    items = list(items)
+    out = [None] * len(items)
+    start = 0
+    while start < len(items):
+        r, w = os.pipe()
+        pid = os.fork()
+        if pid == 0:
+            try:
+                os.close(r)
+                for k in range(start, len(items)):
+                    try:
+                        res = ("ok", fn(items[k]))
+                    except BaseException as e:   # noqa
+                        res = ("err", type(e).__name__, str(e))
+                    try:
+                        data = pickle.dumps(res)
+                    except Exception as e:
+                        data = pickle.dumps(("err", "PicklingError", repr(e)))
+                    data = struct.pack("<Q", len(data)) + data
+                    pos = 0
+                    while pos < len(data):
+                        pos += os.write(w, data[pos:pos + 65536])
+            finally:
+                os._exit(0)
+        os.close(w)
+        buf = b""
+        k = start
+        deadline = time.time() + seconds
+        dead = False
+        while k < len(items):
+            # complete frames in the buffer
+            while len(buf) >= 8:
+                n = struct.unpack("<Q", buf[:8])[0]
+                if len(buf) < 8 + n:
+                    break
+                out[k] = pickle.loads(buf[8:8 + n])
+                buf = buf[8 + n:]
+                k += 1
+                deadline = time.time() + seconds
+            if k >= len(items):
+                break
+            left = deadline - time.time()
+            if left <= 0:
+                out[k] = ("timeout",)
+                k += 1
+                dead = True
+                break
+            rd, _, _ = select.select([r], [], [], min(left, 1.0))
+            if rd:
+                b = os.read(r, 1 << 20)
+                if not b:            # child died without finishing
+                    if k < len(items) and out[k] is None:
+                        out[k] = ("err", "ChildDied", "the forked worker died")
+                        k += 1
+                    dead = True
+                    break
+                buf += b
+        os.close(r)
+        if dead:
+            try:
+                os.kill(pid, 9)
+            except OSError:
+                pass
+        os.waitpid(pid, 0)
+        start = k
+    return out
+
+
+class ForkedError(Exception):
+    def __init__(self, name, msg):
+        Exception.__init__(self, "%s: %s" % (name, msg))
+        self.name, self.msg = name, msg
+
+
 def with_watchdog(seconds, f, *a):
     old = signal.signal(signal.SIGALRM, _alarm)
-    signal.alarm(seconds)
+    # fires at the deadline and then every second, in case one delivery is swallowed at a C extension boundary
+    signal.setitimer(signal.ITIMER_REAL, seconds, 1.0)
     try:
         return f(*a)
     finally:
-        signal.alarm(0)
+        signal.setitimer(signal.ITIMER_REAL, 0, 0)
         signal.signal(signal.SIGALRM, old)
 
 
@@ -72,17 +212,26 @@ def with_watchdog(seconds, f, *a):
 def random_cases(rng, count, tier, unlabelled_share=0.2, kmax=None, kinds=None):
     kmax = kmax or {2: 6, 3: 5, 4: 4, 5: 3}
     cases = []
+    pools = {}
+    pool_size = 7 if tier == "quick" else 40
     while len(cases) < count:
         n = rng.choice([2, 2, 3, 3, 3, 4, 5])
         pattern = rng.choice(gen.PATTERNS)
         labelset = rng.choice(["abc", "words", "nums"])
-        unl = rng.random() < unlabelled_share
+        x = rng.random()
+        unl = True if x < unlabelled_share / 2 else (0.35 if x < unlabelled_share else False)   # fully unlabelled / mixed / labelled
         sizes = gen.sizes_for(rng, n, kmax[n])
         units = gen.gen_units(rng, n, sizes, pattern, gen.LABEL_SETS[labelset], unl)
         if sum(len(u) for u in units) == 0:
             continue
-        spec = gen.random_dissim_spec(rng, labelset, unl, kinds=kinds)
-        cases.append({"units": units, "spec": spec, "pattern": pattern, "unlabelled": unl})
+        # dissimilarity objects cost ~0.7 s of numba compilation each: draw them from a bounded pool per (label set, labelled?)
+        pool = pools.setdefault((labelset, bool(unl)), [])
+        if len(pool) < pool_size:
+            pool.append(gen.random_dissim_spec(rng, labelset, bool(unl), kinds=kinds))
+            spec = pool[-1]
+        else:
+            spec = rng.choice(pool)
+        cases.append({"units": units, "spec": spec, "pattern": pattern, "unlabelled": unl, "labelset": labelset})
     return cases
 
 
@@ -111,15 +260,22 @@ def align_case(pa, case, mode, soft=False, timeout=60):
     set_backend(mode)
     try:
         f = cont.get_best_soft_alignment if soft else cont.get_best_alignment
-        al = with_watchdog(timeout, f, dissim)
+
+        def job():
+            r = f(dissim)
+            r.continuum = None          # the parent re-attaches its own continuum object
+            return r, [str(x) for x in solvers_used()]
+        al, res["solvers"] = run_forked(timeout, job)
+        al.continuum = cont
     except Watchdog:
         res["error"] = "timeout after %ds" % timeout
+        res["solvers"] = []
         return res
-    except Exception as e:  # any exception is a failure to return
-        res["error"] = "%s: %s" % (type(e).__name__, e)
+    except ForkedError as e:  # any exception is a failure to return
+        res["error"] = "%s: %s" % (e.name, e.msg)
+        res["solvers"] = []
         return res
     finally:
-        res["solvers"] = solvers_used()
         set_backend("cbc")
     I = Inst(cont, dissim)
     res["I"] = I
@@ -129,6 +285,44 @@ def align_case(pa, case, mode, soft=False, timeout=60):
     res["disorder"] = al.disorder
     res["ua_disorders"] = [ua.disorder for ua in al.unitary_alignments]
     return res
+
+
+def align_many(pa, jobs, timeout=60):
+    """jobs: list of (case, mode, soft).  Runs the library in forked workers (hard time limit per alignment); returns res dicts."""
+    conts = []
+    for case, mode, soft in jobs:
+        conts.append((gen.build_continuum(pa, case["units"]), gen.make_dissim(pa, case["spec"])))
+
+    def work(k):
+        case, mode, soft = jobs[k]
+        cont, dissim = conts[k]
+        set_backend(mode)
+        try:
+            r = (cont.get_best_soft_alignment if soft else cont.get_best_alignment)(dissim)
+            r.continuum = None
+            return r, [str(x) for x in solvers_used()]
+        finally:
+            set_backend("cbc")
+    outs = map_forked(work, range(len(jobs)), timeout)
+    results = []
+    for (case, mode, soft), (cont, dissim), o in zip(jobs, conts, outs):
+        res = {"cont": cont, "dissim": dissim, "error": None, "mode": mode, "solvers": []}
+        if o[0] == "timeout":
+            res["error"] = "timeout after %ds" % timeout
+        elif o[0] == "err":
+            res["error"] = "%s: %s" % (o[1], o[2])
+        else:
+            al, res["solvers"] = o[1]
+            al.continuum = cont
+            I = Inst(cont, dissim)
+            res["I"] = I
+            res["alignment"] = al
+            res["tuples"] = [I.index_tuple(ua.n_tuple) for ua in al.unitary_alignments]
+            res["slots_ok"] = all(len(ua.n_tuple) == I.n for ua in al.unitary_alignments)
+            res["disorder"] = al.disorder
+            res["ua_disorders"] = [ua.disorder for ua in al.unitary_alignments]
+        results.append(res)
+    return results
 
 
 def sizes_line(fn, I, tuples):
